@@ -3,6 +3,7 @@ from __future__ import annotations
 
 import ast
 import random
+import re
 
 from .. import canary_c09 as cn
 from .. import observe, probes, refselector
@@ -56,7 +57,15 @@ RULE = (
     "of a value (keys ...) may be invoked.  Order of first use: 40 hostile shapes (generator-variable calls consumed by in / "
     "not in / any / all / nested, ...) each as the VERY FIRST selector of a fresh child interpreter, followed by benign "
     "selectors and a second hostile one, same oracle; in-process the class-level attributes of the selector classes are "
-    "compared before / after every evaluation (a loop variable appearing there is a violation)."
+    "compared before / after every evaluation (a loop variable appearing there is a violation).  Family 'never-modifies': "
+    "operator chains of 2-5 operands (+ * % | & /) over typed lists, stringlist, dictlist, bytes, nested record lists, "
+    "comparisons / membership / slices over them, helper calls receiving the record's own lists and dicts, and every "
+    "whitelisted constructor fed the record's OWN mutable values (dict elements of a dictlist, list fields, nested records, "
+    "digest, command, bytes), each evaluated twice on a real record with plain mutable values (and the canary records): the "
+    "deep observation of the record before == after (checked for every case of every family, refused ones included).  Family "
+    "'format': f-strings whose specification / conversion comes from constants and from record string fields holding "
+    "'{0.__secret__}', '>{0.__init__.__globals__}', %-formatting with such text: dunder names inside such text count as spelled "
+    "by the expression, no read of them on a value by interpreter code."
 )
 ASSUMPTIONS = [
     "a canary method called from the code of a documented helper function (lower/upper/field_*) or from a whitelisted "
@@ -350,6 +359,42 @@ COLD_BENIGN = ['lower(r.s) == "abc def"', "any(x for x in r.l)", "r.n + 1 > 2", 
 COLD_SECOND = ["any(f(0) for f in [r.o.fn])", "all(f() for f in [r.s.detonate])", "any(x.detonate() for x in [r.s])",
                "1 in (f() for f in [r.o.fn])", "any(string() for string in [r.o.fn])", "r.s.detonate()"]
 
+# ---- mutable field values: evaluation never modifies the record ------------------------------------------------------
+MUTABLE_EXPR = [
+    # operator chains of 3-5 operands with a mutable value anywhere
+    'r.tags + ["b"] + ["c"] == 1', "r.tags * 1 * 2", "r.tags + r.tags + r.tags", 'r.sl + ["x"] + ["y"] + ["z"]', "r.nums * 2 * 2 * 1",
+    'r.tags + ["b"] + ["c"] + ["d"] + ["e"]', '["q"] + r.tags + ["b"]', "r.hashes + r.hashes + r.hashes", 'r.sub.tags + ["a"] + ["b"]',
+    "r.tags % 1 % 2", "r.nums | r.nums | r.nums", "r.nums & r.nums & r.nums", '(r.tags + ["b"]) + ["c"]', 'r.tags + (["b"] + ["c"])',
+    'r.by + b"x" + b"y"', 'r.s + "a" + "b"', "r.dy + r.dy + r.dy", "r.dy * 2 * 2", "r.paths + r.paths + r.paths", 'r.tags + ["b"]', "r.tags * 3",
+    'r.tags / 1 / 2', 'r.l + ["b"] + ["c"]', "r.k * 1 * 2", "r.l + r.l + r.l + r.l", "r.o.items + r.l + r.l", 'r.sl + ["x"] + ["y"]',
+    # comparisons / membership over them
+    '"a" in r.tags + ["b"] + ["c"]', 'r.tags + ["b"] + ["c"] == r.tags', 'r.tags < r.tags + ["z"] + ["y"]', '"c" not in r.tags + ["b"] + ["c"]',
+    'r.tags + ["b"] + ["c"] == ["a", "b", "c"]', 'r.nums * 1 * 2 == [1, 2, 3, 1, 2, 3]', '0 < r.n < 9 and r.tags + ["b"] + ["c"]',
+    # slices, displays
+    "r.tags[0:1]", "r.tags[::-1]", "[r.tags, r.tags] == 1", "(r.hashes, r.tags)",
+    # helper calls that receive the record's own lists / dicts
+    "lower(r.tags)", "upper(r.sl)", 'field_contains(r, ["tags"], ["a"])', 'field_equals(r, ["hashes", "tags"], ["a"])', "str(r.hashes)", "repr(r.tags)",
+    "any(d for d in r.hashes)", 'any(x for x in r.tags + ["b"] + ["c"])', 'field_regex(r, ["tags"], "a")', "names(r.subs)", "all(lower(x) for x in r.sl)",
+    'any(d == 1 for d in r.hashes + r.hashes + r.hashes)', 'field_contains(r, Type.stringlist, ["xa"])', 'Type.string == "inner1"',
+]
+# every whitelisted constructor fed with the record's OWN mutable values
+CTOR_NAMES = ["string", "wstring", "bytes", "uri", "path", "varint", "uint16", "uint32", "float", "datetime", "digest", "boolean", "command", "stringlist",
+              "dictlist", "dynamic", "filesize", "unix_file_mode", "record", "net.ipaddress", "net.ipnetwork", "net.IPAddress", "net.IPNetwork",
+              "net.ipv4.Address", "net.ipv4.Subnet", "net.tcp.Port", "net.udp.Port"]
+CTOR_OWN_ARGS = ["any({F}(d) for d in r.hashes)", "{F}(r.tags)", "{F}(r.hashes)", "{F}(r.sub)", "{F}(r.subs)", "{F}(r.by)", "{F}(r.dg)", "{F}(r.cmd)",
+                 "{F}(r.dy)", "{F}(r.sl)", "any({F}(x) for x in r.sub.hashes)", "{F}(r.nums)", "{F}(r.paths)", "any({F}(x) for x in r.subs)"]
+MUTABLE_EXTRA = ['any(digest(d).md5 == "%s" for d in r.hashes)' % cn.MD5, 'all(digest(d) for d in r.hashes)', 'digest(r.hashes) == 1',
+                 'any(digest(d).sha1 for x in r.subs for d in x.hashes)', 'any(stringlist(x.tags) for x in r.subs)', "dictlist(r.hashes) == r.hashes"]
+MUTABLE_RECORDS = ("real-mutable", "real-canary", "standin")
+# f-strings / %-formatting with specification text from constants and from string fields ('{0.__secret__}' ...)
+FORMAT_EXPR = [
+    'f"{r.o:{r.fmt}}"', "f\"{r.o:{'{0.__secret__}'}}\"", "f\"{r.s:{'{0.__trip__}'}}\" == \"x\"", 'f"{r.o!r:{r.fmt}}"', 'f"{r.o:>{r.n}}"', 'f"{r.p:{r.fmt2}}"',
+    'f"{r.o:{r.fmt2}}" == "x"', 'f"{r.s:{r.fmt}}"', 'f"{r.n:{r.fmt}}"', 'f"{r.l:{r.fmt}}"', "f\"{r.o:{'>{0.__init__.__globals__}'}}\"", 'f"{r.o.__trip__}"',
+    'f"{r.s.detonate()}"', 'f"{r.o:{r.s.detonate()}}"', '"%s" % r.o == 1', "r.fmt % r.o", "r.fmt % (r.o, r.s)", '"{0.__trip__}" + r.s == 1',
+    'r.fmt == "{0.__secret__}"', 'f"{r.fmt}"', 'f"{r.o}{r.s}{r.n:04x}"', 'f"{r.o!s}" == f"{r.o!a}"', '"{0.__secret__}" % r.o', 'f"{r.o:{r.fmt}}{r.p:{r.fmt}}"',
+    'lower(f"{r.o:{r.fmt}}")', 'any(f"{x:{r.fmt}}" for x in [r.o, r.p, r.s])', 'field_contains(r, ["s"], [f"{r.o:{r.fmt}}"])',
+]
+
 # ---- allowed shapes (negative controls) ---------------------------------------------------------------
 CONTROLS = [
     "lower(r.s)", "upper(r.s)", "str(r.n)", "repr(r.s)", 'net.ipnetwork("10.0.0.0/8")', 'net.ipaddress("10.1.2.3") in net.ipnetwork("10.0.0.0/8")',
@@ -393,7 +438,7 @@ def get_record(ctx, kind):
     recs = _records(ctx)
     if kind not in recs:
         rec = {"real-canary": cn.real_canary_record, "standin": cn.standin_record, "real-plain": cn.real_plain_record,
-               "real-typed": cn.real_typed_record}[kind]()
+               "real-typed": cn.real_typed_record, "real-mutable": cn.real_mutable_record}[kind]()
         if kind not in ("standin", "real-typed"):  # real-typed keeps plain objects in `record` typed fields on purpose
             observe.assert_typed(rec, "constructed")
         recs[kind] = rec
@@ -407,7 +452,7 @@ def value_ids(ctx, kind):
     ent = cache.get(kind)
     if ent is None or ent[0] is not rec:
         ids = set()
-        for k in ("s", "t", "n", "l", "k", "o", "w", "u", "fs", "mode", "d2", "sl"):
+        for k in ("s", "t", "n", "l", "k", "o", "w", "u", "fs", "mode", "d2", "sl", "fmt", "fmt2", "tags", "nums", "hashes", "dy", "by"):
             v = getattr(rec, k, None)
             if v is None:
                 continue
@@ -549,6 +594,21 @@ def generate(ctx):
         for j, entry in enumerate(ENTRY_FILE):
             if ctx.mine(si * (len(ENTRY_FILE) + 1) + j):  # rotate, so that every shard drives every entry point
                 yield {"k": "entryfile", "expr": e, "ev": bool(ev), "shape": name, "scat": cat, "entry": entry}
+    mut = list(MUTABLE_EXPR) + MUTABLE_EXTRA + [a.replace("{F}", f) for f in CTOR_NAMES for a in CTOR_OWN_ARGS]
+    for e in mut:
+        for ci, c in enumerate(ARG_CONTEXTS[:3]):
+            for rk in MUTABLE_RECORDS:
+                if ctx.mine(idx):
+                    yield {"k": "syntax", "expr": c.replace("{H}", e), "ev": True, "rec": rk, "shape": e, "scat": "mutable-values", "ctx": "argctx#%d" % ci,
+                           "ccat": "never-modifies", "twice": True}
+                idx += 1
+    for e in FORMAT_EXPR:
+        for ci, c in enumerate(ARG_CONTEXTS):
+            for rk in ("real-canary", "standin", "real-typed", "real-mutable"):
+                if ctx.mine(idx):
+                    yield {"k": "syntax", "expr": c.replace("{H}", e), "ev": True, "rec": rk, "shape": e, "scat": "format-spec", "ctx": "argctx#%d" % ci,
+                           "ccat": "format"}
+                idx += 1
     for e, strict in SYNTAX_SHAPES:
         for ci, c in enumerate(ARG_CONTEXTS):
             for rk in SYNTAX_RECORDS:
@@ -586,7 +646,7 @@ def generate(ctx):
         for acat, arg in ARG_SHAPES:
             for pname, pos in ARG_POSITIONS:
                 call = target.replace("{A}", pos.replace("{X}", arg))
-                for ci, c in enumerate(ARG_CONTEXTS):
+                for ci, c in enumerate([ARG_CONTEXTS[0], ARG_CONTEXTS[2], ARG_CONTEXTS[3]]):
                     for rk in ARG_RECORDS:
                         if ctx.mine(idx):
                             yield {"k": "hostile", "expr": c.replace("{H}", call), "ev": True, "rec": rk, "shape": "args:%s:%s" % (acat, pname),
@@ -672,9 +732,16 @@ def build_random(seed):
 
 
 # ---- oracle ------------------------------------------------------------------------------------------
+DUNDER_TOKEN = re.compile(r"__[A-Za-z_]+__")
+
+
 def spelled(tree):
     dunders, calls = set(), set()
     for n in ast.walk(tree):
+        if isinstance(n, ast.Constant) and isinstance(n.value, str):
+            dunders.update(DUNDER_TOKEN.findall(n.value))  # '{0.__secret__}' used as a format specification
+        if isinstance(n, ast.Attribute) and n.attr in cn.FMT_TEXTS:
+            dunders.update(DUNDER_TOKEN.findall(cn.FMT_TEXTS[n.attr]))  # ... or read from a string field of the record
         if isinstance(n, ast.Attribute) and n.attr.startswith("__"):
             dunders.add(n.attr)
         elif isinstance(n, ast.Name) and n.id.startswith("__"):
@@ -1000,6 +1067,8 @@ def run_case(ctx, case):
             cn.arm()
             try:
                 result = invoke()
+                if case.get("twice"):
+                    result = invoke()  # a change of the record often only shows in what the next evaluation sees
             except Exception as e:  # noqa: BLE001 - any exception class is a refusal
                 raised, refused_at = e, "match"
             finally:
@@ -1182,6 +1251,7 @@ def finish(ctx):
         ctx.require(ev["entry:" + entry] > 0, "entry point %s was never driven" % entry)
     ctx.require(ev["cold_children"] > 0 and ev["cold_forbidden_evaluated"] > 0, "no order-of-first-use child interpreter ran")
     ctx.require(ev["syntax_cases_without_forbidden_shape"] > 0, "the call-syntax family did not run")
+    ctx.require(ctx.cells.get("mutable-values/never-modifies/real-mutable", 0) > 0, "the never-modifies family did not run on the record with mutable values")
     ctx.require(ev["typed_matcher_cases"] > 0 and ev["callwatch:interpreter:interpreter-internal"] > 0, "the typed-matcher family did not run")
     ctx.require(ev["helper_argument_cases"] > 0 and ev["canary_named_call_documented:lower->lower"] > 0,
                 "the helper-with-canary-argument family did not run, or the documented lower()->.lower call was never observed")
